@@ -5,6 +5,20 @@
 
 verus! {
 
+impl Version {
+//@fn src/protocol.rs Version::try_from
+//@ret res
+//@props C05 C09
+//@sigsubst Result<Self, Self::Error> => Result<Version, VfError>
+//@subst color_eyre::eyre::eyre!( ... ) => VfError { code: 3 }
+//@contract
+    ensures
+        // the requested protocol number is the protocol of the generator built from it (CLI --protocol, Python binding)
+        value <= 5 ==> res is Ok && ver_num(res->Ok_0) == value, // @C05
+        value > 5 ==> res is Err, // @C05
+//@endfn
+}
+
 impl OpcodeKind {
 //@fn src/opcodes.rs OpcodeKind::as_u8
 //@ret r
@@ -2257,7 +2271,14 @@ pub fn get_random_module(&self, source: &mut GenerationSource) -> (r: Result<VfT
 //@rewrite R19
 //@contract
     ensures res.seed == Some(seed), // @C07
-        res.cfg_eq_except(&self, true, false, false, false, false, false, false, false), // @C10 @C07
+        res.state == self.state && res.output == self.output, // @C08 @C05
+        res.bufsize == self.bufsize, // @C07
+        res.min_opcodes == self.min_opcodes && res.max_opcodes == self.max_opcodes, // @C11
+        res.mutators == self.mutators, // @C15 @C16
+        res.mutation_rate == self.mutation_rate, // @C15
+        res.unsafe_mutations == self.unsafe_mutations, // @C03 @C01 @C02 @C04 @C17
+        res.allow_ext_opcodes == self.allow_ext_opcodes, // @C10
+        res.allow_buffer_opcodes == self.allow_buffer_opcodes, // @C10
 //@endfn
 
 //@fn src/generator/mod.rs Generator::with_buffer_size
@@ -2267,7 +2288,14 @@ pub fn get_random_module(&self, source: &mut GenerationSource) -> (r: Result<VfT
 //@rewrite R19
 //@contract
     ensures res.bufsize == Some(size),
-        res.cfg_eq_except(&self, false, true, false, false, false, false, false, false), // @C10
+        res.state == self.state && res.output == self.output, // @C08 @C05
+        res.seed == self.seed, // @C07
+        res.min_opcodes == self.min_opcodes && res.max_opcodes == self.max_opcodes, // @C11
+        res.mutators == self.mutators, // @C15 @C16
+        res.mutation_rate == self.mutation_rate, // @C15
+        res.unsafe_mutations == self.unsafe_mutations, // @C03 @C01 @C02 @C04 @C17
+        res.allow_ext_opcodes == self.allow_ext_opcodes, // @C10
+        res.allow_buffer_opcodes == self.allow_buffer_opcodes, // @C10
 //@endfn
 
 //@fn src/generator/mod.rs Generator::with_min_opcodes
@@ -2277,7 +2305,13 @@ pub fn get_random_module(&self, source: &mut GenerationSource) -> (r: Result<VfT
 //@rewrite R19
 //@contract
     ensures res.min_opcodes == min && res.max_opcodes == self.max_opcodes, // @C11
-        res.cfg_eq_except(&self, false, false, true, false, false, false, false, false), // @C10 @C11
+        res.state == self.state && res.output == self.output, // @C08 @C05
+        res.seed == self.seed && res.bufsize == self.bufsize, // @C07
+        res.mutators == self.mutators, // @C15 @C16
+        res.mutation_rate == self.mutation_rate, // @C15
+        res.unsafe_mutations == self.unsafe_mutations, // @C03 @C01 @C02 @C04 @C17
+        res.allow_ext_opcodes == self.allow_ext_opcodes, // @C10
+        res.allow_buffer_opcodes == self.allow_buffer_opcodes, // @C10
 //@endfn
 
 //@fn src/generator/mod.rs Generator::with_max_opcodes
@@ -2287,7 +2321,13 @@ pub fn get_random_module(&self, source: &mut GenerationSource) -> (r: Result<VfT
 //@rewrite R19
 //@contract
     ensures res.max_opcodes == max && res.min_opcodes == self.min_opcodes, // @C11
-        res.cfg_eq_except(&self, false, false, true, false, false, false, false, false), // @C10 @C11
+        res.state == self.state && res.output == self.output, // @C08 @C05
+        res.seed == self.seed && res.bufsize == self.bufsize, // @C07
+        res.mutators == self.mutators, // @C15 @C16
+        res.mutation_rate == self.mutation_rate, // @C15
+        res.unsafe_mutations == self.unsafe_mutations, // @C03 @C01 @C02 @C04 @C17
+        res.allow_ext_opcodes == self.allow_ext_opcodes, // @C10
+        res.allow_buffer_opcodes == self.allow_buffer_opcodes, // @C10
 //@endfn
 
 //@fn src/generator/mod.rs Generator::with_opcode_range
@@ -2297,7 +2337,13 @@ pub fn get_random_module(&self, source: &mut GenerationSource) -> (r: Result<VfT
 //@rewrite R19
 //@contract
     ensures res.min_opcodes == min && res.max_opcodes == max, // @C11
-        res.cfg_eq_except(&self, false, false, true, false, false, false, false, false), // @C10 @C11
+        res.state == self.state && res.output == self.output, // @C08 @C05
+        res.seed == self.seed && res.bufsize == self.bufsize, // @C07
+        res.mutators == self.mutators, // @C15 @C16
+        res.mutation_rate == self.mutation_rate, // @C15
+        res.unsafe_mutations == self.unsafe_mutations, // @C03 @C01 @C02 @C04 @C17
+        res.allow_ext_opcodes == self.allow_ext_opcodes, // @C10
+        res.allow_buffer_opcodes == self.allow_buffer_opcodes, // @C10
 //@endfn
 
 //@fn src/generator/mod.rs Generator::with_mutators
@@ -2308,7 +2354,13 @@ pub fn get_random_module(&self, source: &mut GenerationSource) -> (r: Result<VfT
 //@rewrite R19
 //@contract
     ensures res.mutators == mutators,
-        res.cfg_eq_except(&self, false, false, false, true, false, false, false, false), // @C10
+        res.state == self.state && res.output == self.output, // @C08 @C05
+        res.seed == self.seed && res.bufsize == self.bufsize, // @C07
+        res.min_opcodes == self.min_opcodes && res.max_opcodes == self.max_opcodes, // @C11
+        res.mutation_rate == self.mutation_rate, // @C15
+        res.unsafe_mutations == self.unsafe_mutations, // @C03 @C01 @C02 @C04 @C17
+        res.allow_ext_opcodes == self.allow_ext_opcodes, // @C10
+        res.allow_buffer_opcodes == self.allow_buffer_opcodes, // @C10
 //@endfn
 
 //@fn src/generator/mod.rs Generator::with_mutator
@@ -2321,7 +2373,13 @@ pub fn get_random_module(&self, source: &mut GenerationSource) -> (r: Result<VfT
 //@contract
     ensures
         vf_mutators_len_spec(&res.mutators) == vf_mutators_len_spec(&self.mutators) + 1,
-        res.cfg_eq_except(&self, false, false, false, true, false, false, false, false), // @C10
+        res.state == self.state && res.output == self.output, // @C08 @C05
+        res.seed == self.seed && res.bufsize == self.bufsize, // @C07
+        res.min_opcodes == self.min_opcodes && res.max_opcodes == self.max_opcodes, // @C11
+        res.mutation_rate == self.mutation_rate, // @C15
+        res.unsafe_mutations == self.unsafe_mutations, // @C03 @C01 @C02 @C04 @C17
+        res.allow_ext_opcodes == self.allow_ext_opcodes, // @C10
+        res.allow_buffer_opcodes == self.allow_buffer_opcodes, // @C10
 //@endfn
 
 //@fn src/generator/mod.rs Generator::with_mutation_rate
@@ -2332,7 +2390,13 @@ pub fn get_random_module(&self, source: &mut GenerationSource) -> (r: Result<VfT
 //@subst rate.clamp(0.0, 1.0) => vf_clamp01(rate)
 //@contract
     ensures
-        res.cfg_eq_except(&self, false, false, false, false, true, false, false, false), // @C10
+        res.state == self.state && res.output == self.output, // @C08 @C05
+        res.seed == self.seed && res.bufsize == self.bufsize, // @C07
+        res.min_opcodes == self.min_opcodes && res.max_opcodes == self.max_opcodes, // @C11
+        res.mutators == self.mutators, // @C15 @C16
+        res.unsafe_mutations == self.unsafe_mutations, // @C03 @C01 @C02 @C04 @C17
+        res.allow_ext_opcodes == self.allow_ext_opcodes, // @C10
+        res.allow_buffer_opcodes == self.allow_buffer_opcodes, // @C10
 //@endfn
 
 //@fn src/generator/mod.rs Generator::with_unsafe_mutations
@@ -2342,7 +2406,13 @@ pub fn get_random_module(&self, source: &mut GenerationSource) -> (r: Result<VfT
 //@rewrite R19
 //@contract
     ensures res.unsafe_mutations == unsafe_mutations,
-        res.cfg_eq_except(&self, false, false, false, false, false, true, false, false), // @C10
+        res.state == self.state && res.output == self.output, // @C08 @C05
+        res.seed == self.seed && res.bufsize == self.bufsize, // @C07
+        res.min_opcodes == self.min_opcodes && res.max_opcodes == self.max_opcodes, // @C11
+        res.mutators == self.mutators, // @C15 @C16
+        res.mutation_rate == self.mutation_rate, // @C15
+        res.allow_ext_opcodes == self.allow_ext_opcodes, // @C10
+        res.allow_buffer_opcodes == self.allow_buffer_opcodes, // @C10
 //@endfn
 
 //@fn src/generator/mod.rs Generator::with_ext_opcodes
@@ -2352,7 +2422,13 @@ pub fn get_random_module(&self, source: &mut GenerationSource) -> (r: Result<VfT
 //@rewrite R19
 //@contract
     ensures res.allow_ext_opcodes == allow, // @C10
-        res.cfg_eq_except(&self, false, false, false, false, false, false, true, false), // @C10
+        res.state == self.state && res.output == self.output, // @C08 @C05
+        res.seed == self.seed && res.bufsize == self.bufsize, // @C07
+        res.min_opcodes == self.min_opcodes && res.max_opcodes == self.max_opcodes, // @C11
+        res.mutators == self.mutators, // @C15 @C16
+        res.mutation_rate == self.mutation_rate, // @C15
+        res.unsafe_mutations == self.unsafe_mutations, // @C03 @C01 @C02 @C04 @C17
+        res.allow_buffer_opcodes == self.allow_buffer_opcodes, // @C10
 //@endfn
 
 //@fn src/generator/mod.rs Generator::with_buffer_opcodes
@@ -2362,7 +2438,13 @@ pub fn get_random_module(&self, source: &mut GenerationSource) -> (r: Result<VfT
 //@rewrite R19
 //@contract
     ensures res.allow_buffer_opcodes == allow, // @C10
-        res.cfg_eq_except(&self, false, false, false, false, false, false, false, true), // @C10
+        res.state == self.state && res.output == self.output, // @C08 @C05
+        res.seed == self.seed && res.bufsize == self.bufsize, // @C07
+        res.min_opcodes == self.min_opcodes && res.max_opcodes == self.max_opcodes, // @C11
+        res.mutators == self.mutators, // @C15 @C16
+        res.mutation_rate == self.mutation_rate, // @C15
+        res.unsafe_mutations == self.unsafe_mutations, // @C03 @C01 @C02 @C04 @C17
+        res.allow_ext_opcodes == self.allow_ext_opcodes, // @C10
 //@endfn
 
 //@fn src/generator/mod.rs Generator::generate
